@@ -205,6 +205,8 @@ def search(obligation, tier, seed, run_batch):
     parts = obligation.split('::')
     key = parts[1]
     cases = CASES_FOR.get(key, [])
+    if key == '*':
+        cases = sorted(set(c for v in CASES_FOR.values() for c in v))
     # a failure in server_name::validate shows through every identifier that embeds a server name
     if key == 'server_name':
         cases = cases + ['idv.user_id', 'idv.mxc_uri']
